@@ -739,11 +739,6 @@ impl S3 for FileSystem {
 
         self.delete_upload_id(&upload_id).await?;
 
-        if let Ok(Some(metadata)) = self.load_metadata(&bucket, &key, Some(upload_id)).await {
-            self.save_metadata(&bucket, &key, &metadata, None).await?;
-            let _ = self.delete_metadata(&bucket, &key, Some(upload_id));
-        }
-
         let object_path = self.get_object_path(&bucket, &key)?;
         let mut file_writer = self.prepare_file_write(&object_path).await?;
 
@@ -776,6 +771,13 @@ impl S3 for FileSystem {
             try_!(fs::remove_file(&part_path).await);
         }
         file_writer.done().await?;
+
+        // the upload's metadata replaces the object's only once the object itself is in place:
+        // a rejected completion must leave the previous object and its metadata untouched
+        if let Ok(Some(metadata)) = self.load_metadata(&bucket, &key, Some(upload_id)).await {
+            self.save_metadata(&bucket, &key, &metadata, None).await?;
+            let _ = self.delete_metadata(&bucket, &key, Some(upload_id));
+        }
 
         let file_size = try_!(fs::metadata(&object_path).await).len();
         let md5_sum = self.get_md5_sum(&bucket, &key).await?;
